@@ -868,6 +868,10 @@ inductive SeqOp (α : Type) where
   | startswith (oroot : String) (other : List (String × α))
   | concat (other : List (String × α))       -- Path(p, q), both rooted at T
   | fromT
+  | ne (oroot : String) (other : List (String × α))   -- p != q
+  | eqOther                                  -- p == x for an x that is neither a Path nor a T
+  | startswithStr (s : α)                    -- p.startswith('text'): the text becomes Path(text)
+  | startswithBad                            -- p.startswith(x) for any other x
 
 inductive SeqRes (α : Type) where
   | nat (n : Nat)
@@ -877,6 +881,7 @@ inductive SeqRes (α : Type) where
   | bool (b : Bool)
   | indexError
   | valueError
+  | typeError
   | other (what : String)
   deriving DecidableEq, Repr
 
@@ -914,5 +919,13 @@ def seqModel {α} [DecidableEq α] (root : String) (steps : List (String × α))
   | .startswith oroot other => .bool (pStartswith (flatOf root steps) (flatOf oroot other))
   | .concat other => resOfOps (concatFlat (flatOf root steps) (flatOf "T" other)) .valueError
   | .fromT => resOfOps (some (pFromT (flatOf root steps))) .valueError
+  -- `__ne__`: `not self == other`
+  | .ne oroot other => .bool (!pEq (flatOf root steps) (flatOf oroot other))
+  -- `__eq__`: `return False` when `other` is neither a Path nor a TType
+  | .eqOther => .bool false
+  -- `if isinstance(other, basestring): other = Path(other)` — one plain segment rooted at T
+  | .startswithStr s => .bool (pStartswith (flatOf root steps) (flatOf "T" [("P", s)]))
+  -- `raise TypeError('can only check if Path starts with string, Path or T')`
+  | .startswithBad => .typeError
 
 end Glom.C18
